@@ -26,6 +26,10 @@ func (C04) Decode(raw []byte) (simkit.Plan, error) { return DecodePlan(raw) }
 func (C04) Generate(rng *rand.Rand, tier string, runIdx uint64) simkit.Plan {
 	u := DefaultUniverse()
 	u.Keys = []string{"a", "a/b", "ab", "b", "a/"}
+	if simkit.Chance(rng, 25) {
+		// node names keep the spelling they were registered with; lookups by node are case-insensitive
+		u.Nodes = []string{"Node-A", "n2", "N3"}
+	}
 	u.Nodes = u.Nodes[:1+rng.IntN(3)]
 	w := Weights{Register: 14, Deregister: 10, KV: 26, Session: 20, Txn: 14, Reap: 1, Advance: 8, Snapshot: 2, Restart: 2, KVLockBias: 40}
 	switch rng.IntN(4) {
